@@ -17,8 +17,8 @@ func init() {
 	core.Register(&core.Check{
 		ID: "C08", Level: "other", Title: "Proofs served to relayers verify against committed roots",
 		Technique: "value identity between the committed root's inputs and the stored leaf list, one-function identity of the leaf hash, proof-format agreement between writers and reader (wire-operation order and flag/sibling table), index-convention agreement (+1 sites), file-position convention of the node store",
-		Explain: "Structural necessary conditions. (Root and leaves) executeBlock sets CrossStatesRoot = HashFullTreeWithLeafHash(result.CrossHashes) when the list is non-empty (the empty hash otherwise) and saveBlockToStateStore hands the SAME result.CrossHashes and result.CrossStatesRoot to AddCrossStates; AddCrossStates writes one hash per list element in order and GetCrossStates reads hashes back in order under the same key constructor; every leaf enters the list as merkle.HashLeaf(value) (PutMerkleVal) — the very function MerkleLeafPath uses to locate the value and MerkleProve uses to start the fold. (Served cross-state proof) GetCrossStatesProof = MerkleLeafPath(GetStorageValue(key), GetCrossStates(height)). (Format) MerkleLeafPath and MerkleInclusionLeafPath both emit varbytes(value) then (flag byte, hash) pairs written pairwise; MerkleLeafPath emits LEFT with the element at index-1 exactly when index is odd and RIGHT with index+1 when even; MerkleInclusionLeafPath emits flag 1 with the right-subtree fold when the leaf lies left of the split and flag 0 with the stored left-subtree root otherwise, and serialises flags and hashes from the same position of both lists in reverse (leaf-to-root) order. (Indices) the block tree receives the previous block hash per block (AddBlockMerkleTreeRoot(block.Header.PrevBlockHash)); Ledger.GetMerkleProof asks for leaf proofHeight+1 with the bytes of GetBlockHash(proofHeight); StateStore.GetMerkleProof asks for tree size rootHeight+1, the same convention StateStore.init checks (treeSize == currBlockHeight+1). (Node store) NewFileHashStore positions the writer at getStoredHashNum(tree_size)*UINT256_SIZE from the start of the file — the committed node count, so nodes re-appended after a crash overwrite orphans instead of shifting every later position — after checkConsistence err==nil; GetHash reads at pos*UINT256_SIZE. NOT decided: equality of the paired-level tree and the RFC 6962 split tree for all n, the numeric index walks, I/O errors swallowed while building a proof (they produce a proof that fails to verify, not a wrong acceptance).",
-		Run: runC08,
+		Explain:   "Structural necessary conditions. (Root and leaves) executeBlock sets CrossStatesRoot = HashFullTreeWithLeafHash(result.CrossHashes) when the list is non-empty (the empty hash otherwise) and saveBlockToStateStore hands the SAME result.CrossHashes and result.CrossStatesRoot to AddCrossStates; AddCrossStates writes one hash per list element in order and GetCrossStates reads hashes back in order under the same key constructor; every leaf enters the list as merkle.HashLeaf(value) (PutMerkleVal) — the very function MerkleLeafPath uses to locate the value and MerkleProve uses to start the fold. (Served cross-state proof) GetCrossStatesProof = MerkleLeafPath(GetStorageValue(key), GetCrossStates(height)). (Format) MerkleLeafPath and MerkleInclusionLeafPath both emit varbytes(value) then (flag byte, hash) pairs written pairwise; MerkleLeafPath emits LEFT with the element at index-1 exactly when index is odd and RIGHT with index+1 when even; MerkleInclusionLeafPath emits flag 1 with the right-subtree fold when the leaf lies left of the split and flag 0 with the stored left-subtree root otherwise, and serialises flags and hashes from the same position of both lists in reverse (leaf-to-root) order. (Indices) the block tree receives the previous block hash per block (AddBlockMerkleTreeRoot(block.Header.PrevBlockHash)); Ledger.GetMerkleProof asks for leaf proofHeight+1 with the bytes of GetBlockHash(proofHeight); StateStore.GetMerkleProof asks for tree size rootHeight+1, the same convention StateStore.init checks (treeSize == currBlockHeight+1). (Node store) NewFileHashStore positions the writer at getStoredHashNum(tree_size)*UINT256_SIZE from the start of the file — the committed node count, so nodes re-appended after a crash overwrite orphans instead of shifting every later position — after checkConsistence err==nil; GetHash reads at pos*UINT256_SIZE. NOT decided: equality of the paired-level tree and the RFC 6962 split tree for all n, the numeric index walks, I/O errors swallowed while building a proof (they produce a proof that fails to verify, not a wrong acceptance).",
+		Run:       runC08,
 	})
 }
 
@@ -30,7 +30,10 @@ func runC08(c *core.Ctx) {
 	// ---- root and leaves
 	if fn := c.Fn(pkLedger, "LedgerStoreImp.executeBlock"); fn != nil {
 		var ok1 bool
-		for _, ci := range ir.Calls(fn, func(ci ssa.CallInstruction) bool { o := ir.CalleeObj(ci); return o != nil && o.Name() == "HashFullTreeWithLeafHash" }) {
+		for _, ci := range ir.Calls(fn, func(ci ssa.CallInstruction) bool {
+			o := ir.CalleeObj(ci)
+			return o != nil && o.Name() == "HashFullTreeWithLeafHash"
+		}) {
 			a := ci.Common().Args
 			okArg := isFieldNamed(a[len(a)-1], "CrossHashes")
 			okSt := false
@@ -60,13 +63,19 @@ func runC08(c *core.Ctx) {
 	}
 	if fn := c.Fn(pkLedger, "LedgerStoreImp.saveBlockToStateStore"); fn != nil {
 		ok := false
-		for _, ci := range ir.Calls(fn, func(ci ssa.CallInstruction) bool { o := ir.CalleeObj(ci); return o != nil && o.Name() == "AddCrossStates" }) {
+		for _, ci := range ir.Calls(fn, func(ci ssa.CallInstruction) bool {
+			o := ir.CalleeObj(ci)
+			return o != nil && o.Name() == "AddCrossStates"
+		}) {
 			a := ci.Common().Args
 			ok = isFieldNamed(a[2], "CrossHashes") && isFieldNamed(a[3], "CrossStatesRoot") && sameResultBase(a[2], a[3])
 		}
 		c.Decide(ok, "C08.root", fn, "AddCrossStates stores the same result.CrossHashes / result.CrossStatesRoot the root was computed from", c.P.Rel(fn.Pos()), "")
 		okPrev := false
-		for _, ci := range ir.Calls(fn, func(ci ssa.CallInstruction) bool { o := ir.CalleeObj(ci); return o != nil && o.Name() == "AddBlockMerkleTreeRoot" }) {
+		for _, ci := range ir.Calls(fn, func(ci ssa.CallInstruction) bool {
+			o := ir.CalleeObj(ci)
+			return o != nil && o.Name() == "AddBlockMerkleTreeRoot"
+		}) {
 			okPrev = isFieldNamed(ci.Common().Args[1], "PrevBlockHash")
 		}
 		c.Decide(okPrev, "C08.index", fn, "the block tree receives block.Header.PrevBlockHash per block", c.P.Rel(fn.Pos()), "")
@@ -142,7 +151,10 @@ func runC08(c *core.Ctx) {
 	// ---- served cross-state proof
 	if fn := c.Fn(pkLedger, "LedgerStoreImp.GetCrossStatesProof"); fn != nil {
 		ok := false
-		for _, ci := range ir.Calls(fn, func(ci ssa.CallInstruction) bool { o := ir.CalleeObj(ci); return o != nil && o.Name() == "MerkleLeafPath" }) {
+		for _, ci := range ir.Calls(fn, func(ci ssa.CallInstruction) bool {
+			o := ir.CalleeObj(ci)
+			return o != nil && o.Name() == "MerkleLeafPath"
+		}) {
 			a := ci.Common().Args
 			v, vi := ir.CallOf(a[0])
 			h, hi := ir.CallOf(a[1])
@@ -330,11 +342,38 @@ func runC08(c *core.Ctx) {
 						okSer = true
 					}
 				}
+				// or a counter running from len−1 down by one
+				if phi, ok := bi.(*ssa.Phi); ok && len(phi.Edges) == 2 {
+					start, down := false, false
+					for _, e := range phi.Edges {
+						bo, isB := e.(*ssa.BinOp)
+						if !isB || bo.Op != token.SUB {
+							continue
+						}
+						k, okk := ir.ConstInt(bo.Y)
+						if !okk || k != 1 {
+							continue
+						}
+						if bo.X == ssa.Value(phi) {
+							down = true
+						} else if l, _ := ir.CallOf(bo.X); l != nil {
+							if b2, isBi := l.Common().Value.(*ssa.Builtin); isBi && b2.Name() == "len" {
+								start = true
+							}
+						}
+					}
+					if start && down {
+						okSer = true
+					}
+				}
 			}
 		}
 		c.Decide(okSer, "C08.format", fn, "flags and hashes are serialised pairwise from the same reversed position", c.P.Rel(fn.Pos()), "")
 		okFirst := false
-		for _, ci := range ir.Calls(fn, func(ci ssa.CallInstruction) bool { o := ir.CalleeObj(ci); return o != nil && o.Name() == "WriteVarBytes" }) {
+		for _, ci := range ir.Calls(fn, func(ci ssa.CallInstruction) bool {
+			o := ir.CalleeObj(ci)
+			return o != nil && o.Name() == "WriteVarBytes"
+		}) {
 			okFirst = ir.Strip(ci.Common().Args[1]) == ssa.Value(paramByName(fn, "data"))
 		}
 		c.Decide(okFirst, "C08.format", fn, "the proof starts with varbytes(value)", c.P.Rel(fn.Pos()), "")
@@ -350,7 +389,10 @@ func runC08(c *core.Ctx) {
 	}
 	if fn := c.Fn("core/ledger", "Ledger.GetMerkleProof"); fn != nil {
 		ok := false
-		for _, ci := range ir.Calls(fn, func(ci ssa.CallInstruction) bool { o := ir.CalleeObj(ci); return o != nil && o.Name() == "GetMerkleProof" }) {
+		for _, ci := range ir.Calls(fn, func(ci ssa.CallInstruction) bool {
+			o := ir.CalleeObj(ci)
+			return o != nil && o.Name() == "GetMerkleProof"
+		}) {
 			a := ci.Common().Args
 			n := len(a)
 			okRaw := false
@@ -369,7 +411,10 @@ func runC08(c *core.Ctx) {
 	}
 	if fn := c.Fn(pkLedger, "StateStore.GetMerkleProof"); fn != nil {
 		ok := false
-		for _, ci := range ir.Calls(fn, func(ci ssa.CallInstruction) bool { o := ir.CalleeObj(ci); return o != nil && o.Name() == "MerkleInclusionLeafPath" }) {
+		for _, ci := range ir.Calls(fn, func(ci ssa.CallInstruction) bool {
+			o := ir.CalleeObj(ci)
+			return o != nil && o.Name() == "MerkleInclusionLeafPath"
+		}) {
 			a := ci.Common().Args
 			ok = ir.Strip(a[1]) == ssa.Value(fn.Params[1]) && ir.Strip(a[2]) == ssa.Value(fn.Params[2]) && plusOne(a[3], fn.Params[3])
 		}
